@@ -14,7 +14,7 @@ func init() {
 		Explain: "Decided (all paths of the scan engine's functions): D1 Extract is invoked only from one dispatch site, on the extractor whose FileRequired(current file) just returned true, with the lazy file API pointed at the current path and its stat cache reset; " +
 			"D2 exactly once per (file, extractor): the dispatch is not in an inner loop, every path from a FileRequired-true edge reaches the dispatch or the size-limit/stat exit, the extractor loop ranges over all configured extractors and continues after a dispatch; " +
 			"D3 directories never reach the dispatch, non-regular files only when symlink reading is on and the mode is a symlink; D4 the directory-skip predicate consults each of the five skip rules on every path that answers 'do not skip', each rule's match leads to 'skip', the skip list is an exact-path lookup, and SkipDir is returned iff the predicate holds; " +
-			"D5 files matched by gitignore patterns never reach the dispatch; D6 every package of an Extract result is attributed to the extractor that produced it and appended to the inventory whenever the result is non-empty (also when Extract returned an error), Scan merges filesystem and standalone inventories; " +
+			"D5 files matched by gitignore patterns never reach the dispatch, and the pattern stack stays balanced (every directory that returns nil/SkipDir pushed exactly one set, the pop removes exactly one under the same conditions); D6 every package of an Extract result is attributed to the extractor that produced it and appended to the inventory whenever the result is non-empty (also when Extract returned an error), Scan merges filesystem and standalone inventories; " +
 			"D7 the walker calls the callback before listing a directory, recurses into every successfully read entry, leaves the loop only on EOF / callback error / SkipDir, and never originates SkipDir itself; D8 whole-tree and explicit-path walks use the same callbacks, explicit directories get their parents' gitignore patterns. " +
 			"NOT decided: correctness of glob/regex/gitignore matching, path-prefix stripping, set equality of inventories, FileRequired predicates (values).",
 		Run: runC01,
@@ -31,6 +31,7 @@ func init() {
 			{Name: "walker-originates-skipdir", File: "extractor/filesystem/internal/walkdir_iterate.go", Old: "			// End iteration after an error\n			return nil\n		}\n		name1", New: "			// End iteration after an error\n			return fs.SkipDir\n		}\n		name1", Rule: "D7-walk", Site: "returns"},
 			{Name: "gitignore-file-dropped", File: "extractor/filesystem/filesystem.go", Old: "if internal.GitignoreMatch(wc.gitignores, strings.Split(path, \"/\"), false) {\n			return nil\n		}", New: "if internal.GitignoreMatch(wc.gitignores, strings.Split(path, \"/\"), false) {\n			log.Debugf(\"ignored %s\", path)\n		}", Rule: "D5-gitignore", Site: "handleFile"},
 			{Name: "stat-cache-not-reset", File: "extractor/filesystem/filesystem.go", Old: "	wc.fileAPI.currentStatCalled = false\n", New: "", Rule: "D1-fileapi", Site: "currentStatCalled"},
+			{Name: "skip-before-push", File: "extractor/filesystem/filesystem.go", Old: "		wc.dirsVisited++\n		if wc.useGitignore {", New: "		wc.dirsVisited++\n		if wc.shouldSkipDir(path) {\n			return fs.SkipDir\n		}\n		if wc.useGitignore {", Rule: "D5-balanced", Site: "push"},
 			{Name: "explicit-dir-no-parent-gitignore", File: "extractor/filesystem/filesystem.go", Old: "					wc.gitignores = gitignores\n", New: "					_ = gitignores\n", Rule: "D8-same", Site: "parent-gitignores"},
 		},
 	})
@@ -62,6 +63,8 @@ func runC01(p *Prog, r *Report) {
 	c01Attribution(p, r, e)
 	c01Walker(p, r, e)
 	c01Same(p, r, e)
+	r.Rule("D5-balanced", "gitignore push/pop balanced: patterns of skipped directories never unbalance the stack")
+	c08Balanced(p, r, e, "D5-balanced")
 }
 
 func c01Dispatch(p *Prog, r *Report, e *engine) {
